@@ -19,7 +19,8 @@ Inductive kind :=
 | KMStr                                  (* SchemaMultilineStr *)
 | KInt                                   (* SchemaInt *)
 | KDate                                  (* SchemaDate: str(timegm(..)) / utcfromtimestamp(int(..)) *)
-| KHex                                   (* SchemaHexInt, SchemaFlagField *)
+| KHex                                   (* SchemaHexInt *)
+| KFlag                                  (* SchemaFlagField: text form inherited from SchemaHexInt *)
 | KUUID                                  (* SchemaUUID *)
 | KEnum (to_tbl : list (Z * str)) (from_tbl : list (str * Z))   (* SchemaEnumField: live lookup tables *)
 | KLLSD (undef : str).                   (* SchemaLLSD; undef = text written for None *)
@@ -39,6 +40,7 @@ Definition ser (k : kind) (v : pval) : str :=
   | KInt, VZ z => int_to_text z
   | KDate, VZ z => int_to_text z
   | KHex, VN n => hex8_to_text n
+  | KFlag, VN n => hex8_to_text n
   | KUUID, VN n => uuid_to_text n
   | KEnum t _, VZ e => match assoc_z t e with Some s => s | None => [] end
   | KLLSD _, VS x => x
@@ -56,6 +58,7 @@ Definition deser (k : kind) (t : option str) : option (option pval) :=
   | KInt, Some s => option_map (fun z => Some (VZ z)) (int_of_text s)
   | KDate, Some s => option_map (fun z => Some (VZ z)) (int_of_text s)
   | KHex, Some s => option_map (fun n => Some (VN n)) (hex_of_text s)
+  | KFlag, Some s => option_map (fun n => Some (VN n)) (hex_of_text s)
   | KUUID, Some s => option_map (fun n => Some (VN n)) (uuid_of_text s)
   | KEnum _ f, Some s => option_map (fun e => Some (VZ e)) (assoc_s f s)
   | KLLSD undef, Some s => let x := mstr_deserialize s in
@@ -223,6 +226,7 @@ Definition dom_prim (k : kind) (v : pval) : bool :=
   | KInt, VZ _ => true
   | KDate, VZ _ => true
   | KHex, VN _ => true
+  | KFlag, VN _ => true
   | KUUID, VN n => uuid_ok n
   | KEnum t f, VZ e => match assoc_z t e with
                        | Some s => val_ok s && match assoc_s f s with Some e' => (e' =? e)%Z | None => false end
